@@ -30,15 +30,25 @@ impl PartialEq for RDev {
 impl Eq for RDev {}
 
 impl RDev {
-    /// spec-side encoder for the harness' device tables (all deltas in -2..=1 => 2-bit format 1,
-    /// eight per word, most significant first)
+    /// Spec-side encoder of a Device table (independent of write-fonts): the smallest format whose
+    /// SIGNED range holds every delta (format 1: -2..=1, 2 bits; format 2: -8..=7, 4 bits; format 3:
+    /// -128..=127, 8 bits), values packed most significant first, 8 / 4 / 2 per word.
     pub fn expected(start: u16, deltas: &[i8]) -> RDev {
-        assert!(deltas.iter().all(|d| (-2..=1).contains(d)) && deltas.len() <= 8);
-        let mut word = 0u16;
-        for (n, v) in deltas.iter().enumerate() {
-            word |= ((*v as u16) & 3) << (14 - 2 * n);
+        assert!(!deltas.is_empty());
+        let (format, bits) = if deltas.iter().all(|d| (-2..=1).contains(d)) {
+            (1u16, 2usize)
+        } else if deltas.iter().all(|d| (-8..=7).contains(d)) {
+            (2, 4)
+        } else {
+            (3, 8)
+        };
+        let per_word = 16 / bits;
+        let mask = (1u16 << bits) - 1;
+        let mut words = vec![0u16; (deltas.len() + per_word - 1) / per_word];
+        for (i, v) in deltas.iter().enumerate() {
+            words[i / per_word] |= ((*v as i16 as u16) & mask) << (16 - bits * (i % per_word + 1));
         }
-        RDev::Device { start, end: start + deltas.len() as u16 - 1, format: 1, words: vec![word], decoded: deltas.to_vec() }
+        RDev::Device { start, end: start + deltas.len() as u16 - 1, format, words, decoded: deltas.to_vec() }
     }
     pub fn decoded_differs(a: &Option<RDev>, b: &Option<RDev>) -> bool {
         match (a, b) {
